@@ -15,7 +15,7 @@ def first_rule(text):
 
 
 def classify(ev):
-    what = "panic" if ev["panic"] else "neither-model-nor-error" if (ev["ok"] and ev["modelnil"]) else "blank-input-accepted" if (ev["blank"] and ev["ok"]) else ("lexical-error-accepted" if ev.get("class") == "lexical-garbage" else "unrepresentable-number-accepted") if (ev.get("unrepresentable") and ev["ok"]) else "time-budget-exceeded"
+    what = "accepted-model-cannot-be-written-out" if (ev["ok"] and not ev["modelnil"] and not ev.get("emit_ok", True) and not ev["panic"]) else "panic" if ev["panic"] else "neither-model-nor-error" if (ev["ok"] and ev["modelnil"]) else "blank-input-accepted" if (ev["blank"] and ev["ok"]) else ("lexical-error-accepted" if ev.get("class") == "lexical-garbage" else "unrepresentable-number-accepted") if (ev.get("unrepresentable") and ev["ok"]) else "time-budget-exceeded"
     return "%s/%s/%s" % (what, first_rule(ev["input"]), ev["context"])
 
 
